@@ -48,15 +48,21 @@ def main():
         if not os.path.exists(f):
             print("missing", f)
             return 2
-    wt = "/var/tmp/opf-eval-%d" % os.getpid()
-    sh("git -C /repo worktree add -f --detach %s HEAD" % wt)
+    # the sub-agent's own scratch worktree is used (its demos assert that path); it is a
+    # worktree of /repo outside /repo and /verif, reset to the unmodified tree first
+    wt = os.path.abspath(seed_dir)
+    sh("git checkout -- opfython", cwd=wt)
+    head = sh("git rev-parse --short HEAD", cwd=wt)[1].strip()
+    repo_head = sh("git -C /repo rev-parse --short HEAD")[1].strip()
+    if head != repo_head:
+        sh("git checkout --detach %s" % repo_head, cwd=wt)
     meta = {"property": pid, "label": label, "source": "independent sub-agent (given only the property text)",
             "evaluated_at_repo_commit": sh("git -C /repo rev-parse --short HEAD")[1].strip(),
             "ran": []}
     try:
-        shutil.copy(demo, os.path.join(wt, "demo.py"))
-        env = {"PYTHONPATH": wt, "NUMBA_CACHE_DIR": os.path.join(wt, ".numba")}
-        rc0, out0 = sh("%s demo.py" % PY, cwd=wt, env=env)
+        env = {"PYTHONPATH": wt}
+        demo_name = os.path.basename(demo)
+        rc0, out0 = sh("%s %s" % (PY, demo_name), cwd=wt, env=env)
         meta["ran"].append({"cmd": "demo on unmodified tree", "exit": rc0})
         rca, outa = sh("git apply %s" % patch, cwd=wt)
         if rca != 0:
@@ -67,7 +73,7 @@ def main():
         failed = re.search(r"(\d+) failed", outt)
         meta["ran"].append({"cmd": "pinned suite with the change", "passed": int(m.group(1)) if m else 0,
                             "failed": int(failed.group(1)) if failed else 0})
-        rc1, out1 = sh("%s demo.py" % PY, cwd=wt, env=env)
+        rc1, out1 = sh("%s %s" % (PY, demo_name), cwd=wt, env=env)
         meta["ran"].append({"cmd": "demo with the change", "exit": rc1, "tail": out1.strip()[-400:]})
         ok = rc0 == 0 and rc1 != 0 and m and int(m.group(1)) >= 181 and not failed
         meta["confirmed"] = bool(ok)
@@ -109,9 +115,8 @@ def main():
             json.dump(meta, open(mp, "w"), indent=1)
         return 0
     finally:
-        sh("git -C /repo worktree remove --force %s" % wt)
-        shutil.rmtree(wt, ignore_errors=True)
-        # replay files written while checking a mutant are scratch
+        sh("git checkout -- opfython", cwd=wt)
+        sh("git clean -fdq -- opfython", cwd=wt)
     return 0
 
 
